@@ -374,7 +374,9 @@ def check_header_list_cap(ctx, eng):
     for p in cm.normal_paths(eng.I.run(fi)):
         for e in p.events:
             if e.kind == 'write' and e.attr == 'max_header_list_size':
-                ok(e.value == T.C(dflt))
+                ok(e.value == T.C(dflt) and (
+                    cm.attr_chain(e.base) == 'self.decoder' or
+                    (e.base[0] == 'obj' and e.base[-1] == 'Decoder')))
             if e.kind == 'new' and e.cls == 'Settings':
                 iv = e.kwargs.get('initial_values')
                 if iv is not None and iv[0] == 'obj':
